@@ -69,7 +69,7 @@ def run(ctx: RunCtx) -> None:
     k2 = [k for k in kinds if k != k1 and not ({k, k1} == {"pipe", "subproc"})][ch.choose(3, "kind2")]
     nthreads = 2 + ch.choose(2, "nthreads")
     fail_first = [0, 1, 2, 99][ch.choose(4, "hook.fail")]
-    sched = Scheduler(ctx.ch, ctx.log, trace_files={m_server.__file__, m_mw.__file__}, preempt_budget=4, horizon=1500, wall_limit=60.0)
+    sched = Scheduler(ctx.ch, ctx.log, trace_files={m_server.__file__, m_mw.__file__}, preempt_budget=4, horizon=1500, wall_limit=60.0, sync_preempts=2, sync_odds=6)
     events: list[tuple] = []  # (seq, what, ...)
     state = {"calls": 0, "inside": 0, "phase": 1}
 
